@@ -2,6 +2,7 @@ package jd
 
 import (
 	"encoding/json"
+	"sort"
 
 	"gopkg.in/yaml.v2"
 )
@@ -14,8 +15,36 @@ func renderJson(i interface{}) string {
 	return string(s)
 }
 
+// yamlOrdered replaces every map by a yaml.MapSlice with the keys in
+// sorted order. The yaml package orders map keys itself with a "natural"
+// comparison which is not transitive ("10" < "1a" < "2" < "10"), so its
+// output for such keys depends on the map iteration order.
+func yamlOrdered(i interface{}) interface{} {
+	switch t := i.(type) {
+	case map[string]interface{}:
+		keys := make([]string, 0, len(t))
+		for k := range t {
+			keys = append(keys, k)
+		}
+		sort.Strings(keys)
+		ms := make(yaml.MapSlice, 0, len(t))
+		for _, k := range keys {
+			ms = append(ms, yaml.MapItem{Key: k, Value: yamlOrdered(t[k])})
+		}
+		return ms
+	case []interface{}:
+		l := make([]interface{}, len(t))
+		for j, v := range t {
+			l[j] = yamlOrdered(v)
+		}
+		return l
+	default:
+		return i
+	}
+}
+
 func renderYaml(i interface{}) string {
-	s, err := yaml.Marshal(i)
+	s, err := yaml.Marshal(yamlOrdered(i))
 	if err != nil {
 		panic(err)
 	}
